@@ -594,13 +594,28 @@ func c03Write(p *chk.Prog, r *chk.Report) {
 			g.GPat(true, "reflect.DeepEqual(S."+fld+", RO."+fld+")", chk.H("RO", ro), chk.H("S", isSvc)))
 		okConv := false
 		if direct {
-			// the write is decided on the fields themselves: some branch taken when this field differs always writes
-			es := g.EdgesImplying(chk.GNot(same))
-			for _, e := range es {
-				if w := g.BranchAlways(e, func(n ast.Node) bool { return n == u.Top }); !w.Found {
-					okConv = true
+			// the write is decided on the fields themselves: every return behind the convergence that is not an error
+			// answer has written, or knows that this field (or the whole object) is unchanged
+			whole := chk.GSame(g.GPat(true, "reflect.DeepEqual(RO, S)", chk.H("RO", ro), chk.H("S", isSvc)), g.GPat(true, "reflect.DeepEqual(S, RO)", chk.H("RO", ro), chk.H("S", isSvc)))
+			written := chk.GEvent(func(n ast.Node) bool { return n == u.Top })
+			okConv = true
+			conv := g.FindPat("RECV.convergeBalancer(_, _, S)")
+			for _, rt := range g.Returns() {
+				res := retResults(rt)
+				if len(res) != 1 || isObjNamed(f, ctrlPkg+".SyncStateError")(res[0]) || isObjNamed(f, ctrlPkg+".SyncStateErrorNoRetry")(res[0]) {
+					continue
+				}
+				after := false
+				for _, c := range conv {
+					if w := (&chk.Walk{G: g, From: c, Hit: func(n ast.Node) bool { return n == rt.Top }}).Run(); w.Found {
+						after = true
+					}
+				}
+				if after && !g.Dominated(rt, chk.GOr(written, same, whole)) {
+					okConv = false
 				}
 			}
+			okConv = okConv && len(conv) > 0
 		} else if tw != nil {
 			// the write is decided on the comparison object: when this field differs it has been copied into it by the
 			// time the object is compared
